@@ -116,7 +116,7 @@ def lex_bounded(pid, cfg, results, tier, seed):
     if tier == "thorough":
         import random, shutil
         rnd = random.Random(seed)
-        d = os.path.join(VERIF, "build", "spans-random")
+        d = os.path.join(VERIF, "build", "spans-random-%s-%d" % (pid, os.getpid()))
         shutil.rmtree(d, ignore_errors=True)
         os.makedirs(d)
         n = 400
